@@ -70,7 +70,9 @@ T == ("short"  :> Ty("int", "int", 2, 1, 16, "", 0)) @@
 UScalar == {"short", "int", "long", "llong", "uint", "ulong", "bint", "float", "double", "fc", "dc", "object", "list"}
 UAll    == UScalar \cup {"mvi", "mvl", "mvf", "mvd", "mvd2"}
 UQuick  == {"short", "int", "long", "ulong", "bint", "float", "double", "dc", "object", "list", "mvi", "mvd", "mvd2"}
-UMulti  == {"int", "long", "bint", "double", "object", "mvd"}
+UMulti  == {"int", "long", "double", "object", "mvd"}
+UThor3  == UNum \cup {"list", "mvd", "mvi"}
+UNum4   == {"int", "long", "uint", "ulong", "bint", "float", "double", "fc", "dc"}
 UMultiQ == {"int", "double", "object", "mvd"}
 UNum    == {"short", "int", "long", "llong", "uint", "ulong", "bint", "float", "double", "fc", "dc", "object"}
 UNumQ   == UNum \ {"uint"}
@@ -110,6 +112,7 @@ A == ("i3"    :> Ar("int", FALSE, 2, "", "", 0)) @@
 AOneAll   == DOMAIN A
 AScalar   == {"i3", "im1", "i40", "i63", "true", "isub", "f15", "fsub", "c12", "str", "list", "none"}
 APairAll  == {"i3", "im1", "i40", "true", "f15", "c12", "str", "list", "none", "ndf8", "ndi4", "arrd", "ndf82"}
+APairT    == {"i3", "i40", "true", "f15", "c12", "str", "list", "none", "ndf8", "ndi4"}
 APairQ    == {"i3", "i40", "true", "f15", "c12", "str", "ndf8", "ndi4"}
 
 IntCls   == {"int", "bool", "intsub"}
